@@ -7,6 +7,7 @@ import MidoModel.Syx
 import MidoProofs.SrcTie.Parser
 import MidoProofs.SrcTie.Codec
 import MidoProofs.Props.C05
+import MidoProofs.Props.C19
 set_option linter.unusedSimpArgs false
 namespace Mido
 open Mido.Py
@@ -237,6 +238,111 @@ example : Src.read_syx_file parserExt [0xF0, 1, 2, 0xF7, 0x90, 1, 2, 0xF0, 0xF7]
 example : Src.read_syx_file parserExt ("F0 01\n02\tF7 f8".toList.map (fun c => (c.toNat : Int))) = .ok [.sysex [1, 2]] := by
   decide +kernel
 example : Src.read_syx_file parserExt ("F0 1 F7".toList.map (fun c => (c.toNat : Int))) = .error .ValueError := by
+  decide +kernel
+
+/-! ### `write_syx_file` -/
+
+theorem src_write_loop (ms : List Msg) (g : Msg → List Int) (F : Msg → List Int → Except Err (ForInStep (List Int)))
+    (hF : ∀ m r, F m r = .ok (.yield (r ++ g m))) : ∀ acc : List Int, forIn ms acc F = .ok (acc ++ ms.flatMap g) := by
+  induction ms with
+  | nil => intro acc; simp [pure, Except.pure]
+  | cons m r ih =>
+    intro acc
+    rw [List.forIn_cons, hF]
+    simp only [bind, Except.bind]
+    rw [ih]; simp only [List.flatMap_cons, List.append_assoc]
+
+theorem filter_isSysex_ext (ms : List Msg) : List.filter (fun m => parserExt.isSysex m) ms = ms.filter Msg.isSysex := by
+  congr 1 <;> (funext m; exact parserExt_isSysex m)
+
+theorem flatMap_map_ofNat (ms : List Msg) : ms.flatMap (fun m => (encode m).map Int.ofNat) = natsToInts (ms.flatMap encode) := by
+  induction ms with
+  | nil => rfl
+  | cons m r ih => simp only [List.flatMap_cons, natsToInts, List.map_append] at *; rw [ih]
+
+/-- text written to a file, as the code points of its characters -/
+def textCodes (cs : List Char) : List Int := cs.map (fun c => (c.toNat : Int))
+
+theorem flatMap_text (ms : List Msg) :
+    ms.flatMap (fun m => (toHex (encode m)).map (fun c => (c.toNat : Int)) ++ [(10 : Int)]) =
+      textCodes (ms.flatMap (fun m => toHex (encode m) ++ ['\n'])) := by
+  induction ms with
+  | nil => rfl
+  | cons m r ih => simp only [List.flatMap_cons, textCodes, List.map_append] at *; rw [ih]; rfl
+
+/-- **`write_syx_file`** of the source, what ends up in the file: the model's `writeSyxBin` / `writeSyxText` -/
+theorem src_write_syx (ms : List Msg) :
+    Src.write_syx_file parserExt ms false = .ok (natsToInts (writeSyxBin ms)) ∧
+    Src.write_syx_file parserExt ms true = .ok (textCodes (writeSyxText ms)) := by
+  constructor
+  · unfold Src.write_syx_file
+    simp only [List.map_id', filter_isSysex_ext, Bool.false_eq_true, if_false, bind, Except.bind]
+    rw [src_write_loop (ms.filter Msg.isSysex) (fun m => (encode m).map Int.ofNat)]
+    · simp [pure, Except.pure, writeSyxBin, flatMap_map_ofNat]
+    · intro m r; rfl
+  · unfold Src.write_syx_file
+    simp only [List.map_id', filter_isSysex_ext, if_true, bind, Except.bind]
+    rw [src_write_loop (ms.filter Msg.isSysex) (fun m => (toHex (encode m)).map (fun c => (c.toNat : Int)) ++ [(10 : Int)])]
+    · simp [pure, Except.pure, writeSyxText, flatMap_text]
+    · intro m r; simp [parserExt, bind, Except.bind, pure, Except.pure, List.append_assoc]
+
+theorem textCodes_textBytes (cs : List Char) : textCodes cs = natsToInts (textBytes cs) := by
+  simp only [textCodes, textBytes, natsToInts, List.map_map]; rfl
+
+theorem encodes_bytes_lt (ms : List Msg) (h : ∀ m ∈ ms, m.Valid) : ∀ b ∈ ms.flatMap encode, b < 256 := by
+  intro b hb
+  obtain ⟨m, hm, hbm⟩ := List.mem_flatMap.mp hb
+  exact encode_bytes_lt m (h m hm) b hbm
+
+theorem hexDigit_lt : ∀ n : Fin 16, (hexDigit n.val).toNat < 256 := by decide
+
+theorem hexByte_lt (b : Nat) (hb : b < 256) : ∀ c ∈ hexByte b, c.toNat < 256 := by
+  intro c hc
+  simp only [hexByte, List.mem_cons, List.mem_nil_iff, or_false] at hc
+  rcases hc with rfl | rfl
+  · exact hexDigit_lt ⟨b / 16, by omega⟩
+  · exact hexDigit_lt ⟨b % 16, by omega⟩
+
+theorem toHex_lt : ∀ (bs : List Nat), (∀ b ∈ bs, b < 256) → ∀ c ∈ toHex bs, c.toNat < 256
+  | [], _, c, hc => by simp [toHex] at hc
+  | [b], h, c, hc => hexByte_lt b (h b (by simp)) c (by simpa [toHex] using hc)
+  | b :: b2 :: rest, h, c, hc => by
+    simp only [toHex, List.mem_append, List.mem_cons] at hc
+    rcases hc with hc | rfl | hc
+    · exact hexByte_lt b (h b (by simp)) c hc
+    · decide
+    · exact toHex_lt (b2 :: rest) (fun x hx => h x (by simp [hx])) c hc
+
+theorem text_char_lt (ms : List Msg) (h : ∀ m ∈ ms, m.Valid) : ∀ c ∈ writeSyxText ms, c.toNat < 256 := by
+  intro c hc
+  simp only [writeSyxText, List.mem_flatMap, List.mem_append, List.mem_cons, List.mem_nil_iff, or_false] at hc
+  obtain ⟨m, hm, hc | rfl⟩ := hc
+  · exact toHex_lt _ (encode_bytes_lt m (h m (List.mem_filter.mp hm).1)) c hc
+  · decide
+
+/-- **C19 about the translated functions**: what the source's `write_syx_file` writes (either format), read by the
+    source's `read_syx_file`, is the list of the sysex messages, in order -/
+theorem src_syx_roundtrip (ms : List Msg) (h : ∀ m ∈ ms, m.Valid) :
+    (Src.write_syx_file parserExt ms false >>= Src.read_syx_file parserExt) = .ok (ms.filter Msg.isSysex) ∧
+    (Src.write_syx_file parserExt ms true >>= Src.read_syx_file parserExt) = .ok (ms.filter Msg.isSysex) := by
+  have hv : ∀ m ∈ ms.filter Msg.isSysex, m.Valid := fun m hm => h m (List.mem_filter.mp hm).1
+  constructor
+  · rw [(src_write_syx ms).1]
+    simp only [bind, Except.bind]
+    rw [src_read_syx _ (by unfold writeSyxBin; exact encodes_bytes_lt _ hv)]
+    exact C19_bin ms h
+  · rw [(src_write_syx ms).2]
+    simp only [bind, Except.bind]
+    rw [textCodes_textBytes, src_read_syx _ ?_]
+    · exact C19_text ms h
+    · intro b hb
+      simp only [textBytes, List.mem_map] at hb
+      obtain ⟨c, hc, rfl⟩ := hb
+      exact text_char_lt ms h c hc
+
+example : Src.write_syx_file parserExt [.sysex [1, 2], .chan3 .note_on 0 1 2, .sysex []] false = .ok [0xF0, 1, 2, 0xF7, 0xF0, 0xF7] := by
+  decide +kernel
+example : Src.write_syx_file parserExt [.sysex [1, 0xAB % 128], .songpos 3] true = .ok ("F0 01 2B F7\n".toList.map (fun c => (c.toNat : Int))) := by
   decide +kernel
 
 end Mido
